@@ -30,6 +30,11 @@ type Case struct {
 	WantCounters bool `json:"want_counters,omitempty"` // task / step counts and busy times of the components the runner reports on
 	IsRef        bool `json:"is_ref,omitempty"`        // a reference run other cases are compared with: scheduled first
 
+	// WarmRuns: the worker first runs the same program WarmRuns times on platforms of their own in the same process
+	// (results discarded), then builds the platform whose results it reports: "repeating a simulation" within one
+	// process, so that state that outlives a platform (package-level pools, caches, counters) shows. Not part of Name().
+	WarmRuns int `json:"warm_runs,omitempty"`
+
 	// Env is extra environment for the worker process (e.g. GOMAXPROCS=16); it
 	// overrides the defaults Exec sets. Not part of Name().
 	Env []string `json:"env,omitempty"`
